@@ -1,6 +1,7 @@
 import Proofs.C02.Ecdsa
 import Proofs.C02.Misc
 import Proofs.C02.Der
+import Proofs.C02.Witness
 /-!
 # C02 — ECDSA: signatures verify, verification is the SEC 1 equation, recovery, DER is canonical
 
@@ -34,14 +35,13 @@ theorem ecdsa_verify_iff_sec1 (L : Lawful o G) (c : ℤ) (Q : α) (r s : ℤ) :
 
 /-- T3 (recovery): with the `key_id` that signing returned, `_recover_pub_key_` answers the signer's key
     `q·G` — whatever `j = x_K // n` was (the `x_K ≥ n` case included), after the low-s flip as well, on
-    the prime-order arm and on the cofactor arm (whose re-verification passes).  `YParity` is the
-    additional law "the parity of y is a function of the group element" (proposed for `Lawful`). -/
-theorem ecdsa_recover_signer (L : Lawful o G) (hy : YParity L) {c q k : ℤ} {lowerS : Bool} {r s kid : ℤ}
+    the prime-order arm and on the cofactor arm (whose re-verification passes). -/
+theorem ecdsa_recover_signer (L : Lawful o G) {c q k : ℤ} {lowerS : Bool} {r s kid : ℤ}
     (hk : 0 < k ∧ k < o.n) (hq : 0 < q ∧ q < o.n)
     (h : signRecoverable o c q k lowerS = .ok (r, s, kid))
     (primeOrder lowerS' : Bool) (hl' : lowerS' = true → lowerS = true) :
     ∃ Q', recover o primeOrder kid c r s lowerS' = .ok Q' ∧ L.abs Q' = q • L.abs o.gen :=
-  recover_signer L hy hk hq h primeOrder lowerS' hl'
+  recover_signer L (yParity L) hk hq h primeOrder lowerS' hl'
 
 /-- T6 (nonce reuse): two signatures made with one key and one nonce over two challenges, with different
     `s`, give back exactly `(q, k)`. -/
@@ -133,6 +133,12 @@ example : Der.parseStrict [0x30, 0x07, 0x02, 0x02, 0x00, 0x01, 0x02, 0x01, 0x05]
 example : Der.parseLax [0x30, 0x07, 0x02, 0x02, 0x00, 0x01, 0x02, 0x01, 0x05] = some (1, 5) := by decide
 example : Der.parseStrict [0x30, 0x06, 0x02, 0x01, 0x01, 0x02, 0x01, 0x05, 0x00] = none := by decide
 example : Der.parseStrict [0x30, 0x06, 0x02, 0x01, 0x81, 0x02, 0x01, 0x05] = none := by decide
+
+-- non-vacuity of the hypothesis bundle itself: a concrete lawful `GroupOps` exists (Proofs/C02/Witness.lean),
+-- and on it T1/T3 have non-trivial instances
+example : ∃ (_ : Lawful Witness.ops (ZMod 7)), verify Witness.ops 3 (Witness.ops.mul 5 Witness.ops.gen) 4 1 = true :=
+  ⟨Witness.lawful, (ecdsa_sign_verifies Witness.lawful (by decide) _ (Witness.lawful.abs_mul 5 _)
+    (by decide : signRecoverable Witness.ops 3 5 2 true = .ok (4, 1, 0))).1⟩
 
 -- non-vacuity: the hypotheses are met by concrete executions on a 13-point curve (p = 19, n = 13)
 def toy : EC.Curve := { p := 19, a := 0, b := 2, gx := 4, gy := 16, n := 13, h := 2 }
